@@ -20,6 +20,7 @@ func init() {
 	vRegister("c08_chunks", c08Chunks)
 	vRegister("c08_pads", c08Pads)
 	vRegister("c08_faults", c08Faults)
+	vRegister("c08_stutter", c08Stutter)
 }
 
 var errC08 = errors.New("verif: injected reader failure")
@@ -331,6 +332,88 @@ func c08Faults(c *vrep.Ctx) {
 		}
 		if m := r.Note["msg"].(string); m != "" {
 			c.Violate("c08_faults:"+strings.ReplaceAll(id, " ", "_"), id+": "+m, r, m)
+		}
+	})
+}
+
+// c08Stutter: readers that answer (0, nil) - allowed by io.Reader - a given NUMBER of times over one
+// call, spread evenly between data reads of a fixed size: every total 0..N x chunk sizes.
+type c08StutterReader struct {
+	data          []byte
+	chunk         int
+	empties, left int // empty answers in total / still to give
+	reads, total  int // data reads done / needed
+}
+
+func (r *c08StutterReader) Read(p []byte) (int, error) {
+	if len(p) == 0 {
+		return 0, nil
+	}
+	// empty answers due before data read number r.reads: floor((reads+1)*empties/total) in all
+	due := r.empties
+	if r.total > 0 && r.reads < r.total {
+		due = (r.reads + 1) * r.empties / r.total
+	}
+	if given := r.empties - r.left; given < due {
+		r.left--
+		return 0, nil
+	}
+	if len(r.data) == 0 {
+		return 0, io.EOF
+	}
+	n := r.chunk
+	if n > len(p) {
+		n = len(p)
+	}
+	if n > len(r.data) {
+		n = len(r.data)
+	}
+	copy(p, r.data[:n])
+	r.data = r.data[n:]
+	r.reads++
+	return n, nil
+}
+
+func c08Stutter(c *vrep.Ctx) {
+	c08Trace = false
+	cl, docs := c08Classifier()
+	inputs := c08Inputs(docs, c.Pick(2, 6))
+	chunks := []int{1, 7, 64, 1024}
+	maxEmpty := c.Pick(300, 1200)
+	c.R.Rule = fmt.Sprintf("%d inputs x data reads of %v bytes x EVERY total number 0..%d of (0, nil) answers spread evenly between the data reads: MatchFrom must return no error and exactly Match's result; non-trivial = cases whose result has a match", len(inputs), chunks, maxEmpty)
+	c.Bound("max_empty_answers", maxEmpty)
+	want := make([]string, len(inputs))
+	for i, in := range inputs {
+		want[i] = vFmt(cl.Match(in))
+	}
+	body := func(r *vx.Run) {
+		ii := r.Choose(len(inputs), "input")
+		ch := chunks[r.Choose(len(chunks), "chunk")]
+		if r.Scout() {
+			return
+		}
+		ne := r.Choose(maxEmpty+1, "empty answers")
+		rd := &c08StutterReader{data: inputs[ii], chunk: ch, empties: ne, left: ne, total: (len(inputs[ii]) + ch - 1) / ch}
+		got := ""
+		if msg := vPanics(func() {
+			res, err := cl.MatchFrom(rd)
+			got = vFmt(res)
+			if err != nil {
+				got = "error: " + err.Error()
+			}
+		}); msg != "" {
+			got = "panic: " + msg
+		}
+		r.Note = map[string]interface{}{"id": fmt.Sprintf("in%d chunk%d empty%d", ii, ch, ne), "input": ii, "got": got}
+	}
+	c.Run(vSplitExplorer(c, 0, 2), body, func(r *vx.Run) {
+		ii := r.Note["input"].(int)
+		id := r.Note["id"].(string)
+		if strings.Contains(want[ii], " | ") {
+			c.Nontrivial(id)
+		}
+		if got := r.Note["got"].(string); got != want[ii] {
+			c.Violate("c08_stutter:"+strings.ReplaceAll(id, " ", "_"), fmt.Sprintf("%s: MatchFrom gives %s, Match %s", id, got, want[ii]), r, got)
 		}
 	})
 }
